@@ -20,7 +20,8 @@ ClassesAll == {
   C("dt_ns", 64, FALSE, "NAT", FALSE, TRUE, TRUE),   C("dt_us", 64, FALSE, "NAT", FALSE, TRUE, TRUE),
   C("dt_ms", 64, FALSE, "NAT", FALSE, TRUE, TRUE),   C("dt_s", 64, FALSE, "NAT", FALSE, TRUE, TRUE),
   C("dt_tz", 64, FALSE, "NAT", FALSE, TRUE, TRUE),
-  C("td_ns", 64, FALSE, "NAT", FALSE, TRUE, FALSE),
+  C("td_ns", 64, FALSE, "NAT", FALSE, TRUE, FALSE),   C("td_us", 64, FALSE, "NAT", FALSE, TRUE, FALSE),
+  C("td_ms", 64, FALSE, "NAT", FALSE, TRUE, FALSE),   C("td_s", 64, FALSE, "NAT", FALSE, TRUE, FALSE),
   C("cat_str", 8, FALSE, "CAT", TRUE, TRUE, FALSE),  C("cat_int", 8, FALSE, "CAT", TRUE, TRUE, FALSE),
   \* ordered categoricals whose declared category order differs from the order of the label values
   C("cat_str_ord", 8, FALSE, "CAT", TRUE, TRUE, FALSE),  C("cat_int_ord", 8, FALSE, "CAT", TRUE, TRUE, FALSE),
@@ -58,7 +59,7 @@ StatsAll == {"true", "false", "auto"}
 StatsQuick == {"true", "auto"}
 V12 == {1, 2}
 OptDefault == {"default"}
-OptsAll == {"default", "int96", "explicit", "fixed", "hive"}
+OptsAll == {"default", "int96", "explicit", "fixed", "hive", "index", "index2", "rangeidx"}
 CodecNone == {"none"}
 CodecsAll == {"none", "SNAPPY", "GZIP", "ZSTD", "LZ4", "BROTLI"}
 CodecsSome == {"none", "SNAPPY", "GZIP"}
